@@ -209,6 +209,23 @@ union c15_fbits {
     c15_u u;
     c15_f f;
 };
+#if C15_W == 32
+#define EXP_ALL 0x7f800000ull
+#define QUIET 0x00400000ull
+#define PAYLOAD 0x003fffffull
+#else
+#define EXP_ALL 0x7ff0000000000000ull
+#define QUIET 0x0008000000000000ull
+#define PAYLOAD 0x0007ffffffffffffull
+#endif
+/* signalling NaN: the patterns that float arithmetic on real hardware
+ * alters.  The *-snan assertions are implied by the general ones; they give
+ * the solver a failing obligation whose counterexample is a signalling NaN,
+ * i.e. one that also misbehaves when replayed on the gcc build (CBMC's
+ * float model may alter other NaN payloads that x86-64 SSE preserves). */
+#define IS_SNAN(u)                                                          \
+    ((((uint64_t)(u)) & EXP_ALL) == EXP_ALL && (((uint64_t)(u)) & QUIET) == 0u && \
+     (((uint64_t)(u)) & PAYLOAD) != 0u)
 #define CODEC_FLOAT(O, BIG)                                                 \
     static void CAT3(chk_f, C15_W, O)(const unsigned off)                   \
     {                                                                       \
@@ -217,6 +234,9 @@ union c15_fbits {
         union c15_fbits a, g, g2;                                           \
         g2.f = REFFN(f, O)(p);                                              \
         VP_ASSERT((uint64_t)g2.u == composed, LBL("ref", f, O, "value"));   \
+        if (IS_SNAN(composed))                                              \
+            VP_ASSERT((uint64_t)g2.u == composed,                           \
+                      LBL("ref", f, O, "value-snan"));                      \
         CHECK_READONLY(f, O);                                               \
         a.u = (c15_u)g_in.v;                                                \
         const uint64_t image = (uint64_t)a.u;                               \
@@ -224,6 +244,8 @@ union c15_fbits {
         CHECK_STORE(f, O)                                                   \
         g.f = REFFN(f, O)(p);                                               \
         VP_ASSERT(g.u == a.u, LBL("ref", f, O, "roundtrip-bits"));          \
+        if (IS_SNAN(a.u))                                                   \
+            VP_ASSERT(g.u == a.u, LBL("ref", f, O, "roundtrip-snan"));      \
         res.f[ORD_##O] = (uint64_t)g.u;                                     \
         res.mf[ORD_##O] = (uint64_t)g2.u;                                   \
     }
@@ -290,15 +312,6 @@ void harness(void)
                    res.ms[ORD_b] < 0 && res.ms[ORD_l] > 0,
                WL("reach-load-raw"));
 #ifdef C15_HAS_FLOAT
-#if C15_W == 32
-#define EXP_ALL 0x7f800000ull
-#define QUIET 0x00400000ull
-#define PAYLOAD 0x003fffffull
-#else
-#define EXP_ALL 0x7ff0000000000000ull
-#define QUIET 0x0008000000000000ull
-#define PAYLOAD 0x0007ffffffffffffull
-#endif
     /* negative signalling NaN with a payload survives bit-identically */
     VP_WITNESS((in.v & EXP_ALL) == EXP_ALL && (in.v & QUIET) == 0u &&
                    (in.v & PAYLOAD) != 0u && (in.v >> (C15_W - 1)) == 1u &&
@@ -424,61 +437,63 @@ union f64bits {
     double f;
 };
 
-void harness(void)
+static struct vp_in g_in;
+static int16_t last;
+static uint8_t first_octet, last_octet;
+
+static void record(const unsigned off)
 {
-    VP_INPUT(in);
-    VP_ASSUME(in.off <= MAXOFF);
     static const uint8_t nb[NFIELD] = { 2, 3, 4, 5, 6, 7, 8, 4, 8, 3, 5, 2 };
     static const uint8_t big[NFIELD] = { 1, 0, NATIVE_BIG, 1, 0, NATIVE_BIG,
                                          1, 0, 1, 1, 0, 0 };
     uint8_t buf[MEM] ALIGNED8;
     uint8_t expect[MEM];
     for (unsigned i = 0u; i < MEM; ++i) {
-        buf[i] = in.mem[i];
-        expect[i] = in.mem[i];
+        buf[i] = g_in.mem[i];
+        expect[i] = g_in.mem[i];
     }
     /* expected image from the lane specification */
-    unsigned pos = PRE + in.off;
+    unsigned pos = PRE + off;
     for (unsigned f = 0u; f < NFIELD; ++f)
         for (unsigned k = 0u; k < nb[f]; ++k)
-            expect[pos++] = octet_of(in.v[f], lane_of(k, nb[f], big[f]));
+            expect[pos++] = octet_of(g_in.v[f], lane_of(k, nb[f], big[f]));
 
     union f32bits f32;
     union f64bits f64;
-    f32.u = (uint32_t)in.v[7];
-    f64.u = in.v[8];
-    uint8_t *const start = buf + PRE + in.off;
+    f32.u = (uint32_t)g_in.v[7];
+    f64.u = g_in.v[8];
+    uint8_t *const start = buf + PRE + off;
     void *p = start;
-    p = bf_set_u16b(p, (uint16_t)in.v[0]);
-    p = bf_set_s24l(p, (int32_t)in.v[1]);
-    p = bf_set_u32n(p, (uint32_t)in.v[2]);
-    p = bf_set_s40b(p, (int64_t)in.v[3]);
-    p = bf_set_u48l(p, in.v[4]);
-    p = bf_set_s56n(p, (int64_t)in.v[5]);
-    p = bf_set_s64b(p, (int64_t)in.v[6]);
+    p = bf_set_u16b(p, (uint16_t)g_in.v[0]);
+    p = bf_set_s24l(p, (int32_t)g_in.v[1]);
+    p = bf_set_u32n(p, (uint32_t)g_in.v[2]);
+    p = bf_set_s40b(p, (int64_t)g_in.v[3]);
+    p = bf_set_u48l(p, g_in.v[4]);
+    p = bf_set_s56n(p, (int64_t)g_in.v[5]);
+    p = bf_set_s64b(p, (int64_t)g_in.v[6]);
     p = bf_set_f32l(p, f32.f);
     p = bf_set_f64b(p, f64.f);
-    p = bf_set_u24b(p, (uint32_t)in.v[9]);
-    p = bf_set_u40l(p, in.v[10]);
-    p = bf_set_s16l(p, (int16_t)in.v[11]);
+    p = bf_set_u24b(p, (uint32_t)g_in.v[9]);
+    p = bf_set_u40l(p, g_in.v[10]);
+    p = bf_set_s16l(p, (int16_t)g_in.v[11]);
     VP_ASSERT(p == (void *)(start + RECLEN), "C15.record.end");
     for (unsigned i = 0u; i < MEM; ++i)
         VP_ASSERT(buf[i] == expect[i], "C15.record.image");
 
     const uint8_t *q = start;
-    VP_ASSERT(bf_ref_u16b(q) == (uint16_t)in.v[0], "C15.record.u16b");
+    VP_ASSERT(bf_ref_u16b(q) == (uint16_t)g_in.v[0], "C15.record.u16b");
     q += 2;
-    VP_ASSERT((int64_t)bf_ref_s24l(q) == ref_signed(in.v[1], 3), "C15.record.s24l");
+    VP_ASSERT((int64_t)bf_ref_s24l(q) == ref_signed(g_in.v[1], 3), "C15.record.s24l");
     q += 3;
-    VP_ASSERT(bf_ref_u32n(q) == (uint32_t)in.v[2], "C15.record.u32n");
+    VP_ASSERT(bf_ref_u32n(q) == (uint32_t)g_in.v[2], "C15.record.u32n");
     q += 4;
-    VP_ASSERT(bf_ref_s40b(q) == ref_signed(in.v[3], 5), "C15.record.s40b");
+    VP_ASSERT(bf_ref_s40b(q) == ref_signed(g_in.v[3], 5), "C15.record.s40b");
     q += 5;
-    VP_ASSERT(bf_ref_u48l(q) == (in.v[4] & low_mask(6)), "C15.record.u48l");
+    VP_ASSERT(bf_ref_u48l(q) == (g_in.v[4] & low_mask(6)), "C15.record.u48l");
     q += 6;
-    VP_ASSERT(bf_ref_s56n(q) == ref_signed(in.v[5], 7), "C15.record.s56n");
+    VP_ASSERT(bf_ref_s56n(q) == ref_signed(g_in.v[5], 7), "C15.record.s56n");
     q += 7;
-    VP_ASSERT(bf_ref_s64b(q) == ref_signed(in.v[6], 8), "C15.record.s64b");
+    VP_ASSERT(bf_ref_s64b(q) == ref_signed(g_in.v[6], 8), "C15.record.s64b");
     q += 8;
     union f32bits g32;
     g32.f = bf_ref_f32l(q);
@@ -488,18 +503,31 @@ void harness(void)
     g64.f = bf_ref_f64b(q);
     VP_ASSERT(g64.u == f64.u, "C15.record.f64b");
     q += 8;
-    VP_ASSERT(bf_ref_u24b(q) == ((uint32_t)in.v[9] & 0xffffffu), "C15.record.u24b");
+    VP_ASSERT(bf_ref_u24b(q) == ((uint32_t)g_in.v[9] & 0xffffffu), "C15.record.u24b");
     q += 3;
-    VP_ASSERT(bf_ref_u40l(q) == (in.v[10] & low_mask(5)), "C15.record.u40l");
+    VP_ASSERT(bf_ref_u40l(q) == (g_in.v[10] & low_mask(5)), "C15.record.u40l");
     q += 5;
-    const int16_t last = bf_ref_s16l(q);
-    VP_ASSERT((int64_t)last == ref_signed(in.v[11], 2), "C15.record.s16l");
+    last = bf_ref_s16l(q);
+    VP_ASSERT((int64_t)last == ref_signed(g_in.v[11], 2), "C15.record.s16l");
+    first_octet = buf[PRE + off];
+    last_octet = buf[PRE + off + RECLEN - 1];
+}
+
+void harness(void)
+{
+    VP_INPUT(in);
+    VP_ASSUME(in.off <= MAXOFF);
+    g_in = in;
+    /* case split: the alignment offset is a constant in each iteration */
+    for (unsigned o = 0u; o <= MAXOFF; ++o)
+        if (in.off == o)
+            record(o);
 
     VP_WITNESS(in.off == 1u && last < 0 && in.v[1] == 0x800000u &&
-                   in.v[0] == 0x1234u && buf[PRE + 1] == 0x12u,
+                   in.v[0] == 0x1234u && first_octet == 0x12u,
                "C15.record.reach");
     VP_WITNESS(in.off == MAXOFF && in.v[11] == 0x7fffu && last == 0x7fff &&
-                   buf[PRE + MAXOFF + RECLEN - 1] == 0x7fu,
+                   last_octet == 0x7fu,
                "C15.record.reach-last-alignment");
 }
 
